@@ -397,6 +397,47 @@ class RegexC(WithIgnored, FragContract):
         return True, r[1], ref_skip(cx, W, r[0])
 
 
+class RegexPairC(FragContract):
+    """two regex literals in ONE generated module (shared precompile state): each must be matched by the matcher of
+    ITS OWN (pattern, flags), whatever was precompiled before it"""
+    cls_name = 'Seq'
+    PATS = ['ab', b'ab', '[a-z]+']
+
+    def label(self, cfg):
+        return f"regex-pair,pat={self.PATS[cfg['pat_ix']]!r},ic={cfg['ic']}"
+
+    def configs(self, tier):
+        for i, pat in enumerate(self.PATS):
+            for ic in ((False, True), (True, False), (True, True), (False, False)):
+                yield {'pat_ix': i, 'ic': list(ic), 'ctx': False, 'bytes': isinstance(pat, bytes)}
+
+    def build(self, cfg):
+        pat = self.PATS[cfg['pat_ix']]
+        return X.Seq(X.Regex(pat, ignore_case=cfg['ic'][0]), X.Regex(pat, ignore_case=cfg['ic'][1])), []
+
+    def pids(self, cx, ex):
+        pat = self.PATS[cx.cfg['pat_ix']]
+        return [ex.lit(('re', pat, '_IGNORECASE' if ic else '0')) for ic in cx.cfg['ic']]
+
+    def spec(self, cx, ex, st):
+        p1, p2 = self.pids(cx, ex)
+        p = cx.p0
+        q = re_end(p1, p)
+        seq = Concat(Unit(re_val(p1, p)), Unit(re_val(p2, q)))
+        return Outcome(And(re_ok(p1, p), re_ok(p2, q)), ex.box(seq), re_end(p2, q))
+
+    def ref(self, cx, W, user):
+        pat = self.PATS[cx.cfg['pat_ix']]
+        f1, f2 = ['_IGNORECASE' if ic else '0' for ic in cx.cfg['ic']]
+        r1 = W.re_match(pat, f1, W.p0)
+        if r1 is None:
+            return False, None, W.p0
+        r2 = W.re_match(pat, f2, r1[0])
+        if r2 is None:
+            return False, None, r1[0]
+        return True, [r1[1], r2[1]], r2[0]
+
+
 class ByteC(WithIgnored, FragContract):
     cls_name = 'Byte'
 
@@ -672,4 +713,4 @@ class SkipC(FragContract):
 
 
 CORE = [OptC(), ChoiceC(), LongestC(), SeqC(), DiscardC(), ExpectC(), ExpectNotC(), FailC(), BacktrackC(),
-        StrC(), RegexC(), ByteC(), RefC(), ListC(), SkipC()]
+        StrC(), RegexC(), RegexPairC(), ByteC(), RefC(), ListC(), SkipC()]
